@@ -45,6 +45,8 @@ type ProfileSession struct {
 
 	startTime time.Time
 	stopTime  time.Time
+	// stopped is set by Stop (guarded by trieMutex)
+	stopped bool
 
 	logger Logger
 }
@@ -179,6 +181,13 @@ func (ps *ProfileSession) reset() {
 	ps.trieMutex.Lock()
 	defer ps.trieMutex.Unlock()
 
+	// the sampling goroutine is not stopped synchronously: a tick that is in
+	// progress (or one more tick) may still get here after Stop has uploaded
+	// the last window
+	if ps.stopped {
+		return
+	}
+
 	now := time.Now()
 	// upload the read data to server
 	ps.uploadTries(now)
@@ -196,6 +205,7 @@ func (ps *ProfileSession) Stop() {
 	defer ps.trieMutex.Unlock()
 
 	ps.stopTime = time.Now()
+	ps.stopped = true
 	close(ps.stopCh)
 	// TODO: wait for stopCh consumer to finish!
 
